@@ -49,6 +49,13 @@ ProblemPred(pr) ==
      lp     |-> IF lp THEN LP(pr) ELSE <<>>,
      degs   |-> [k \in 1..Len(PrTerms(pr)) |-> SpecDeg(PrTerms(pr)[k])]]
 
+\* ---- every element reachable through a view carries its declared bounds and domain (binary => [0, 1])
+ViewNames(o) == IF o.kind = "V" THEN o.names ELSE IF o.kind = "M" THEN FlattenSeq(o.names) ELSE <<o.den.n>>
+ViewPred(o) ==
+    IF o.kind = "PR" THEN ProblemPred(o)
+    ELSE LET ns == ViewNames(o) IN
+         [names |-> ns, bounds |-> [i \in 1..Len(ns) |-> BoundsOf(ns[i])], domains |-> [i \in 1..Len(ns) |-> DomainOf(ns[i])]]
+
 \* ---- spec-internal theorem (C05 on the spec): the LP denotes the model at every grid point
 GridEnv(vs, g) == [n \in {vs[i] : i \in 1..Len(vs)} |-> R(g[(CHOOSE i \in 1..Len(vs) : vs[i] = n)])]
 RDotV(r, vs, env) == LET S == 1..Len(vs) IN
